@@ -46,6 +46,13 @@ pub struct WakeCase {
     #[serde(default)]
     pub ring_waits: bool,
     pub wake_tape: Vec<u16>,
+    /// Priority schedule (few preemptions, long runs) instead of the tape.
+    #[serde(default)]
+    pub pct: Option<sched::Pct>,
+    /// The kernel completes every request inside the io_uring_enter call that
+    /// consumed it (as it does for operations that do not have to wait).
+    #[serde(default)]
+    pub inline_complete: bool,
 }
 
 type Fut = Pin<Box<a10::fs::Truncate<'static>>>;
@@ -271,7 +278,21 @@ pub fn run(case: &WakeCase, ctx: &mut Ctx) -> Vec<&'static str> {
             }
         }));
     }
-    let outcome = sched::run(case.wake_tape.clone(), 20_000, false, threads);
+    if case.inline_complete {
+        sim::sim().enter_hook = Some(Box::new(|ring: &mut sim::SimRing, info: &sim::EnterInfo| {
+            for serial in &info.consumed {
+                if ring.req(*serial).is_some_and(|r| !r.done && r.sqe.user_data >= 4) {
+                    ring.complete(*serial, 0, 0, false);
+                }
+            }
+        }));
+        classes.push("inline-completion");
+    }
+    let outcome = sched::run_either(&case.pct, &case.wake_tape, 20_000, false, threads);
+    sim::sim().enter_hook = None;
+    if case.pct.is_some() {
+        classes.push("pct");
+    }
     world.ring = ring_slot.lock().unwrap().take().map(|r| r.0);
     for f in results.lock().unwrap().drain(..) {
         all.extend(f.0);
